@@ -196,5 +196,10 @@ def run(rep):
                            ['required', 'provided', 'name'])
     from .C05 import subscribe_on_all_exits
     subscribe_on_all_exits(rep, mod, 'R04.7', only=('_uncached_lookup',))
+    from .C05 import subscribe_all_spec
+    subscribe_all_spec(rep, mod, 'R04.7')
     from . import cside
     cside.c04(rep)
+    # ... and later changes of a base registry (verifying registries answer
+    # from their cache only while the snapshot covers EVERY registry above)
+    cside.verify_snapshot_c(rep, cside.cu(rep), 'R04.7')
